@@ -8,11 +8,18 @@ COQ = os.path.join(VERIF, "coq")
 REPO = os.environ.get("VERIF_REPO", "/repo")
 WORK = os.path.join(VERIF, "work")
 COQFLAGS = ["-w", "-notation-overridden,-deprecated-hint-without-locality,-deprecated-instance-without-locality"]
-ALLOWED_AXIOMS = set()   # none needed so far; stdlib axioms would be listed here and in the evidence
+# standard-library axioms (the axiomatisation of the real numbers + excluded middle), used ONLY by the theorems that relate the
+# float leaves to the real-number specification of IEEE-754 through Flocq (proofs/FloatProofs.v); every other theorem is closed
+ALLOWED_AXIOMS = {"ClassicalDedekindReals.sig_forall_dec", "ClassicalDedekindReals.sig_not_dec",
+                  "FunctionalExtensionality.functional_extensionality_dep", "Classical_Prop.classic"}
 
 TRUSTED_BASE_COMMON = [
     "Coq 8.16.1 kernel (coqc, full .vo build); vm_compute used for finite computations; no native_compute",
-    "no axioms: every theorem in props/ prints 'Closed under the global context'",
+    "axioms: none declared by this development; every theorem in props/ prints 'Closed under the global context' except the float-leaf "
+    "theorems stated against the real-number specification of IEEE-754 (C01_float_*, C02_float_*, C02_int_to_double_is_rne and what is "
+    "derived from proofs/FloatProofs.v), which depend, through Flocq and Coq's Reals, on the standard library's "
+    "ClassicalDedekindReals.sig_forall_dec, ClassicalDedekindReals.sig_not_dec, FunctionalExtensionality.functional_extensionality_dep "
+    "and Classical_Prop.classic (listed per theorem under obligations)",
     "hand-written Gallina model (coq/model); tie to /repo = correspondence check (model evaluated inside Coq by vm_compute vs implementation on the same inputs) + regenerated Srcfacts.v",
     "harness: Python generators, syntactic abstraction Python<->Gallina terms (harness/gallina.py), comparators",
     "Cython mirrors (*.pyx) are not verified; the pure-Python modules are what runs here",
@@ -186,7 +193,7 @@ def coqchk(prop_id):
         m = re.search(pat, log + "\n\n", re.S)
         summ[key] = re.sub(r"\s+", " ", m.group(1)).strip() if m else "?"
     ok = rc == 0 and all(v == "<none>" for k, v in summ.items() if k != "axioms") and \
-        (summ["axioms"] == "<none>" or set(summ["axioms"].split()) <= ALLOWED_AXIOMS)
+        (summ["axioms"] == "<none>" or all(any(a == x or a.endswith("." + x) for x in ALLOWED_AXIOMS) for a in summ["axioms"].split()))
     summ["exit"] = rc
     return ok, summ
 
